@@ -278,6 +278,14 @@ def run(h, r):
         h.inconclusive("invocation_budget")
         h.case(r, False, label="budget")
         return
+    except Exception as e:
+        # the probe patterns never raise, so this is the driver tripping over its own state
+        # (typically: it picked an op that was erased or detached from the region)
+        from vt.props.C04 import exc_site
+        h.case(r, True, label="driver_raised")
+        h.mismatch(sigbase("driver_raised", exc=type(e).__name__, site=exc_site(e)), r,
+                   f"rewrite_module raised {e!r:.300} ({cfg})")
+        return
     c_after = C.canon(module)
     h.case(r, len(state["fired"]) >= 2, label="rec" if recursive else "nonrec",
            sample={"patterns": [PATTERN_NAMES[i] for i in sel], "cfg": cfg, "fired": sorted(state["fired"]),
